@@ -2,6 +2,7 @@ mod common;
 mod exp;
 mod h_c01;
 mod h_run;
+mod h_timeline;
 mod hist;
 mod p_adaptive;
 mod p_chunk;
@@ -45,6 +46,10 @@ fn main() {
         "C01" => h_c01::run_c01(tier, replay),
         "C05" => s_wal::run(tier, replay),
         "C06" => h_c01::run_c06(tier, replay),
+        "C15" => h_timeline::run(tier, replay),
+        "C19" => h_c01::run_c19(tier, replay),
+        "C24" => h_c01::run_c24(tier, replay),
+        "C26" => h_c01::run_c26(tier, replay),
         "C30" => p_codec::run_c30(tier, replay),
         "C31" => p_codec::run_c31(tier, replay),
         "C32" => p_query::run(tier, replay),
@@ -65,6 +70,7 @@ fn worker(kind: &str) {
     match kind {
         "c32" => p_query::worker(),
         "hist" => hist::worker(),
+        "c15" => h_timeline::worker(),
         other => common::die(&format!("unknown worker kind {other}")),
     }
 }
